@@ -58,3 +58,24 @@ def run(ctx):
                 ok, why = False, "off-process column map of the result is not a sorted list of non-local columns"
             if not ok:
                 ctx.signal("O", sig, "gathered result differs from the required global operator: " + why, case=c["line"])
+        # distributed block forms: ParCSRMatrix::to_ParBSR(br, bc) followed by to_ParBCOO / to_ParBSR / to_ParBSC / copy
+        bcases = []
+        for k in range(ctx.scale(25, 200)):
+            c = C02par.gen_blockcase(rng, "w%d_%d" % (P, k), P)
+            ops = [rng.choice(["to_bcoo", "to_bsr", "to_bsc", "copy"]) for _ in range(rng.choice([1, 1, 2, 3]))]
+            c.update(ops=ops, line=" ".join(str(x) for x in [c["cid"], "pbconv", c["br"], c["bc"]] + C02par.parlit_tokens(c, True) + [len(ops)] + ops))
+            bcases.append(c)
+        impl, crashed = fw.run_impl_lines(ctx, "drv_parmat", [c["line"] for c in bcases], nprocs=P, name="pbconv_%d" % P)
+        for c in bcases:
+            ctx.evaluations += 1; ctx.count("par_P=%d" % P); ctx.count("par_block_conv")
+            if c["trip"]: ctx.nontrivial.add(c["line"].split(" ", 1)[1])
+            r = impl.get(c["cid"]); res = {k: v for k, v in r} if r else {}
+            sig = "par:bconv:%dx%d:%s" % (c["br"], c["bc"], ">".join(c["ops"]))
+            if "DONE" not in res:
+                ctx.signal("O", sig + ":crash_or_hang", "implementation did not complete: %s" % (r[:1] if r else None,), case=c["line"]); continue
+            ok, why = fw.dense_equal(gathered(res["T"]), dense_of(c["trip"]))
+            dims = commgen.split_ranks(res["D"])
+            if ok and dims and (int(dims[0][0]) * c["br"], int(dims[0][1]) * c["bc"]) != (c["nr"], c["nc"]):
+                ok, why = False, "global block dimensions %s x %s for a %d x %d matrix in %dx%d blocks" % (dims[0][0], dims[0][1], c["nr"], c["nc"], c["br"], c["bc"])
+            if not ok:
+                ctx.signal("O", sig, "gathered block matrix differs from the required global operator: " + why, case=c["line"])
